@@ -26,7 +26,8 @@ def base_conv(rng, i):
     for k in range(n):
         tag = "%d.%d" % (i, k)
         r = G.rand_req(rng, tag, allow_big=(i % 4 == 0))
-        r.expect = None
+        if i % 3 == 0 and r.framing == "cl" and len(r.body) > 0:
+            r.expect = "100-continue"      # a client that announces the expectation but sends the body at once
         if r.framing != "none" and len(r.body) > 3000 and i % 4 != 0:
             r.body = r.body[:300]
             r.chunks = [len(r.body)] if r.chunks else None
@@ -51,6 +52,11 @@ def splits_for(rng, stream, tier):
     pts = sorted(pts)
     if len(pts) > 24:
         pts = [pts[j] for j in sorted(set(rng.below(len(pts)) for _ in range(24)))]
+    # always: exactly at, just before and just after the end of every head
+    for m in re.finditer(rb"\r\n\r\n", stream):
+        for d in (3, 4, 5):
+            if 0 < m.start() + d < n and m.start() + d not in pts:
+                pts.append(m.start() + d)
     for p in pts:
         out.append(([p], "single@crlf"))
     if n <= 160 or tier == "thorough" and n <= 600:
